@@ -9,35 +9,37 @@
    at start-up, the record found covers the parts found, the record parses), any history [evs] of HTLC arrivals,
    RPC processing WITH injected faults on every write and on pay (rejected, or applied-but-reported-failed), reply
    deliveries in any order, part resolutions, pay-command progress, timer ticks, block heights and CRASHES; every
-   prefix is a possible crash image because [evs] is arbitrary. [hist_wf] is the environment contract: N1/N2 on
-   what a finished pay command reports, and no injected error on a READ rpc (with one, wait_payment's error is taken
-   for a failed payment: the known-finding class kf_read_error of C02, under which Free can be written early). *)
+   prefix is a possible crash image because [evs] is arbitrary. [hist_wf false] is the environment contract at its weaker
+   level: N1/N2 on what a finished pay command reports, and no injected error on the reads of the wait_payment that pay()
+   falls back to (with one, that wait's error is taken for a failed payment and Free is written early: known finding KF-B).
+   Injected errors on every other read (listdatastore; the wait_payment of the restart path) ARE allowed: they make the
+   plugin fail HTLCs or panic (KF-C, KF-A) but never write the record wrongly. *)
 From Tramp Require Import Model.Base Model.Fee Model.Classify Model.Node Model.Provider Model.ProviderSys Model.Sys.
 From Tramp Require Import Proofs.SysBasics Proofs.SysReach Proofs.SysPreimage Proofs.SysCalls Proofs.SysNode Proofs.SysSafety.
 
 (* at every instant: something pending or complete, or a pay command running  ==>  the record says Pending or Succeeded *)
 Theorem C08_write_ahead : forall c n t0 h0 a0 evs,
-  node_ok n -> hist_wf c (sys_start n t0 h0 a0) evs ->
+  node_ok n -> hist_wf false c (sys_start n t0 h0 a0) evs ->
   let s := after c n t0 h0 a0 evs in
   busy (nd s) \/ payrun (nd s) <> 0 -> hot (nd s).
-Proof. intros c n t0 h0 a0 evs Hn Hwf. exact (write_ahead c _ (after_wreach c n t0 h0 a0 evs Hn Hwf)). Qed.
+Proof. intros c n t0 h0 a0 evs Hn Hwf. exact (write_ahead false c _ (after_wreach false c n t0 h0 a0 evs Hn Hwf)). Qed.
 
 (* the same, read the other way: whenever the record is free or absent, every part has failed and no pay command runs
    — so a free marker can only ever be in place (hence only be written) when nothing is pending or complete *)
 Theorem C08_free_only_when_nothing_live : forall c n t0 h0 a0 evs,
-  node_ok n -> hist_wf c (sys_start n t0 h0 a0) evs ->
+  node_ok n -> hist_wf false c (sys_start n t0 h0 a0) evs ->
   let s := after c n t0 h0 a0 evs in
   free_view (ds (nd s)) -> all_failed (parts (nd s)) /\ payrun (nd s) = 0.
-Proof. intros c n t0 h0 a0 evs Hn Hwf. exact (free_means_quiet c _ (after_wreach c n t0 h0 a0 evs Hn Hwf)). Qed.
+Proof. intros c n t0 h0 a0 evs Hn Hwf. exact (free_means_quiet false c _ (after_wreach false c n t0 h0 a0 evs Hn Hwf)). Qed.
 
 (* the in-flight marker is durable in the node at the moment the pay request is issued *)
 Theorem C08_marker_before_pay : forall c n t0 h0 a0 evs ev cid b am mf md rt,
-  node_ok n -> hist_wf c (sys_start n t0 h0 a0) evs ->
+  node_ok n -> hist_wf false c (sys_start n t0 h0 a0) evs ->
   let s := after c n t0 h0 a0 evs in
   In (OCall cid (QPay b am mf md rt)) (snd (step c s ev)) -> hot (nd s).
 Proof.
   intros c n t0 h0 a0 evs ev cid b am mf md rt Hn Hwf s Hin.
-  exact (proj2 (pay_only_when_quiet c s ev cid b am mf md rt (after_wreach c n t0 h0 a0 evs Hn Hwf) Hin)).
+  exact (proj2 (pay_only_when_quiet false c s ev cid b am mf md rt (after_wreach false c n t0 h0 a0 evs Hn Hwf) Hin)).
 Qed.
 
 (* a succeeded record holds a good key (good := "hashes to this payment hash", or "was produced by the node for this
